@@ -81,7 +81,11 @@ func (panicStat) OnEntryPassed(ctx *base.EntryContext) {
 	}
 }
 func (panicStat) OnEntryBlocked(*base.EntryContext, *base.BlockError) {}
-func (panicStat) OnCompleted(*base.EntryContext)                      {}
+func (panicStat) OnCompleted(ctx *base.EntryContext) {
+	if ctx.Input.Flag == 3 { // a later statistic slot fails while the entry completes: the capacity is freed all the same
+		panic("user statistic slot panics on completion")
+	}
+}
 
 // panicCheck is a user rule-check slot ordered before every built-in one; it panics for entries flagged with 2. The chain
 // recovers, the request is admitted without having been checked or counted by anybody, and its exit frees nothing: such an
@@ -174,6 +178,9 @@ func TestSequential(t *testing.T) {
 					case 2:
 						opts = append(opts, sentinel.WithFlag(2))
 						ghost = true
+					case 3:
+						opts = append(opts, sentinel.WithFlag(3))
+						c.Class("user-statistic-slot-panics-on-completion")
 					}
 				}
 				e, blk := sentinel.Entry(res, opts...)
